@@ -206,6 +206,7 @@ def run(ctx: Ctx) -> None:
                            {"cmd": ["python", "-m", "refurb", *args], "rc": rc, "stderr": err[-1500:], "stdout": out[-500:]})
         # 2. batched in-process runs (bisected on failure)
         kitchen = [str(VERIF / "corpus/C04/kitchen.py"), str(VERIF / "corpus/C03/typing_states.py")]
+        kitchen += sorted(glob.glob(str(VERIF / "corpus/C03/regress_*.py")))   # minimised earlier failures run first
         data = sorted(glob.glob(str(REPO / "test" / "data*" / "*.py")))
         muts = mutants(ctx, td, ctx.budget(60, 1500))
         std = stdlib_sample(ctx, ctx.budget(48, 100000))
